@@ -22,3 +22,17 @@ package std
 //@ ext sync.(*RWMutex).RUnlock
 //@   trusted
 //@   assigns nothing
+
+// sync/atomic: linearizable read-modify-write (sequential reading; concurrent callers rely on this trusted contract).
+//@ ext sync/atomic.AddUint64(addr, delta)
+//@   trusted
+//@   ensures int(deref(addr)) == (int(old(deref(addr))) + int(delta)) % 18446744073709551616 && result == deref(addr)
+//@   assigns addr
+//@ ext sync/atomic.LoadUint64(addr)
+//@   trusted
+//@   pure
+//@   ensures result == deref(addr)
+//@ ext sync/atomic.StoreUint64(addr, val)
+//@   trusted
+//@   ensures deref(addr) == val
+//@   assigns addr
